@@ -32,7 +32,7 @@ THEOREMS = ['PV.C10.' + t for t in [
 TRUSTED = [
   'bitstruct-typed signals (L3 of the type checker: struct <-> BitsN and struct <-> struct assignment, field access) and lists of '
   'Bits constants are NOT in the Lean model: harness/checks/c10_struct.py drives them through the real Gen + TypeCheck passes and '
-  'DefaultPassGroup simulation and judges them with the model-independent oracle only (streams struct, N6, lutctl)',
+  'DefaultPassGroup simulation and judges them with the model-independent oracle only (streams struct, N6, lutctl, intlut)',
   'Model/TC.lean follows BehavioralRTLIRTypeCheckL1/L2Pass (visitor + enforcer), RTLIRDataType._get_nbits_from_value / get_index_width; '
   'Model/PyEval.lean composes the PythonBits model of C04/C05 (Model/Bits.lean) with Python int arithmetic',
   'a signal read is modelled as Bits(w, value mod 2**w): the mask is the identity on reachable states',
@@ -548,11 +548,26 @@ def process_src(ck, cases, nvec):
       if verdict != 'ok': continue
       m = cls(); m.elaborate(); m.apply(R.DefaultPassGroup())
       bad, wviol = None, []
-      for k in range(nvec + 2):
+      nodes = ST.explicit_nodes(R, rtlir)
+      def widths_ok():
+        for src, sw in nodes:
+          try: v = eval(src, mod.__dict__, {'s': m})
+          except Exception: continue
+          nb = getattr(v, 'nbits', None)
+          if isinstance(nb, int) and not isinstance(v, type):
+            if nb != sw: wviol.append((src, sw, nb))
+          elif isinstance(v, int) and not (-(1 << (sw - 1)) <= v < (1 << sw)):
+            wviol.append((src, sw, f'int {v}'))      # an int value the static width cannot hold
+      sweep = c.get('sweep')
+      nsweep = 0
+      for n, d, t in c['ports']:
+        if n == sweep: nsweep = 1 << int(t[4:])
+      for k in range(nvec + 2 + nsweep):
         ins = {}
         for n, d, t in c['ports']:
           if d == 'in' and t.startswith('Bits'):
             w = int(t[4:]); v = 0 if k == 0 else ((1 << w) - 1 if k == 1 else rand_value(ck.rng, w))
+            if n == sweep and k >= nvec + 2: v = k - (nvec + 2)
             sig = getattr(m, n); sig @= v; ins[n] = v
         try: m.sim_eval_combinational()
         except Exception as e:
@@ -562,12 +577,8 @@ def process_src(ck, cases, nvec):
             bad = (ins, ce, str(e).split('\n')[0][:140]); break
           continue
         ck.hist('sim_outcome_src', 'ok')
-      if bad is None:
-        for src, sw in ST.explicit_nodes(R, rtlir):
-          try: v = eval(src, mod.__dict__, {'s': m})
-          except Exception: continue
-          nb = getattr(v, 'nbits', None)
-          if isinstance(nb, int) and not isinstance(v, type) and nb != sw: wviol.append((src, sw, nb))
+        if sweep and not wviol: widths_ok()
+      if bad is None and not wviol: widths_ok()
       f = FINDING_OF_STREAM.get(c['stream'], 'unexplained')
       if bad is not None:
         ck.hist('violations', f + ' @' + c['stream'])
@@ -750,9 +761,10 @@ def run(ck):
     batch(12 if quick else 30, lambda u: G.gen_boolop(rng, u))
     batch(14 if quick else 36, lambda u: G.gen_tmpseq(rng, u))
     batch(14 if quick else 36, lambda u: G.gen_mixite(rng, u))
-    nsrc = (10, 3, 2) if quick else (30, 8, 6)
+    nsrc = (10, 3, 2, 8) if quick else (30, 8, 6, 24)
     src_cases = []
-    for n, f in zip(nsrc, (lambda u: ST.gen_struct(rng, u), lambda u: ST.gen_lut(rng, u, 'N6'), lambda u: ST.gen_lut(rng, u, 'lutctl'))):
+    for n, f in zip(nsrc, (lambda u: ST.gen_struct(rng, u), lambda u: ST.gen_lut(rng, u, 'N6'), lambda u: ST.gen_lut(rng, u, 'lutctl'),
+                           lambda u: ST.gen_intlut(rng, u))):
       for _ in range(n):
         uid[0] += 1; src_cases.append(f(uid[0]))
     process_src(ck, src_cases, nvec)
